@@ -249,6 +249,15 @@ def run(tier, seed):
                     if not res <= (1e-7 if cl.startswith("lambda") else TOL) * sc + 1e-300:
                         ck.violation({"clause": cl, "pair": kinds[i] + "/" + kinds[i + 1]}, "stack %s, type %s, interface %d (%s | %s) at r = %.6g: clause %s residual %.3g (scale %.3g): lower top %s, upper bottom %s" % (
                             key, t, i + 1, kinds[i], kinds[i + 1], f["r"], cl, res, sc, f["lower_top"], f["upper_bot"]), det)
+        for t, dd in (o.get("alone_diff") or {}).items():
+            ck.case(("independent", key, t, job["seed"]), True)
+            if dd == "failed":
+                continue
+            if isinstance(dd, str) or not dd <= 1e-12:
+                ck.violation({"clause": "type_independence", "top": kinds[-1], "type": t}, "stack %s: type %s solved alone differs from the same type inside solve_for=%s (%s relative to each row's maximum)" % (
+                    key, t, job["solve_for"], dd), job)
+            else:
+                worst["type_independence"] = max(worst.get("type_independence", 0.0), dd)
         ck.sample({"stack": kinds, "freq": job["freq"], "l": job["l"], "solve_for": job["solve_for"], "status": o["status"]})
     never = [k for k, v in per_stack.items() if v == 0]
     ck.notes["whole_solver"] = {"jobs": len(jobs), "solved": solved, "stacks": len(per_stack), "stacks_never_solved": never, "skipped_top_dynamic_liquid": skipped_top_ld,
